@@ -22,7 +22,7 @@ from haiway import MISSING, Missing, State  # noqa: E402
 ID = "C04"
 TECHNIQUE = "explicit-state search over operation histories (mutation attempts, updated, copy, deepcopy) on real State instances with a 'value never changes' reference, plus the exhaustive equality pair matrix"
 RULE = (
-    "catalogue of 23 state classes (scalars, Sequence/Set/Mapping/tuple attributes, nested, "
+    "catalogue of 24 state classes (scalars, Sequence/Set/Mapping/tuple attributes, nested, "
     "recursive, generic-specialised, Missing-typed, Literal-typed, defaulted, containers of containers (outer container passed as list or as tuple), subclass, "
     "Any-typed) x 2-3 instances built from mutable argument containers (also read-only views of "
     "dicts the caller keeps) x every operation history up to length L (mutation attempts, updated "
@@ -101,6 +101,11 @@ class SeqSet(State):
     groups: Sequence[Set[int]]
 
 
+class MapMap(State):
+    table: Mapping[str, Mapping[str, int]]
+    deep: Mapping[str, Sequence[Mapping[str, int]]] | None = None
+
+
 class Lit(State):
     mode: Literal["fast", "safe"] = "fast"
     level: Literal["lo", "hi"] | Missing = MISSING  # (strings: an ==-equal float for an int Literal is unspecified)
@@ -167,6 +172,7 @@ CATALOGUE: dict[str, tuple[type, list]] = {
     "SeqSeq": (SeqSeq, [lambda: {"rows": [[1], [2, 3]]}]),
     "MapSeq": (MapSeq, [lambda: {"m": {"ab": [1, 2]}}]),
     "SeqMap": (SeqMap, [lambda: {"rows": [{"ab": 1}]}, lambda: {"rows": [_proxy({"ab": 1})]}, lambda: {"rows": ({"ab": 1}, {"k": 2})}]),
+    "MapMap": (MapMap, [lambda: {"table": {"a": {"x": 1}}}, lambda: {"table": {"a": {"x": 1}, "b": {}}, "deep": {"k": [{"y": 2}]}}, lambda: {"table": {}}]),
     "SeqSet": (SeqSet, [lambda: {"groups": [{1, 2}]}, lambda: {"groups": ({1, 2}, {3})}]),
     "Lit": (Lit, [lambda: {}, lambda: {"mode": "safe", "level": "hi"}]),
     "OptS": (OptS, [lambda: {}, lambda: {"o": [1]}]),
@@ -194,6 +200,7 @@ REPLACE: dict[str, dict[str, tuple]] = {
     "SeqSeq": {"rows": (lambda: [[9]], [["bad"]], 0)},
     "MapSeq": {"m": (lambda: {"q": [9]}, {"q": ["bad"]}, 0)},
     "SeqMap": {"rows": (lambda: [{"q": 9}], [{"q": "bad"}], 0)},
+    "MapMap": {"table": (lambda: {"z": {"q": 9}}, {"z": {"q": "bad"}}, 0), "deep": (lambda: {"z": [{"q": 9}]}, {"z": [{"q": "bad"}]}, 0)},
     "SeqSet": {"groups": (lambda: ({9}, {8}), [{"bad"}], 0)},
     # invalid replacements of the SAME plain type as the current value
     "Lit": {"mode": (lambda: "safe", "turbo", ""), "level": (lambda: "lo", "mid", 0), "name": (lambda: "z", 7, 0)},
